@@ -250,3 +250,8 @@ Print Assumptions C14_E_example.
 Print Assumptions C14_source_restore_is_atomic.
 Print Assumptions C14_source_close_is_atomic.
 Print Assumptions C14_source_dump_puts_headers_back.
+
+(* loading an index into memory has no suspension point between replacing the records and replacing the filters: a dropped caller leaves either the on-disk index or the complete in-memory one (structural fact re-extracted on every run; finding F33) *)
+Theorem C14_source_index_load_is_one_step : Pearl.Generated.Facts.INDEX_LOAD_REPLACES_RECORDS_AND_FILTERS_TOGETHER = true.
+Proof. reflexivity. Qed.
+Print Assumptions C14_source_index_load_is_one_step.
